@@ -267,6 +267,9 @@ class SimT(SimBase):
             key = 'HTTP_' + k.upper().replace('-', '_')
             if v is None:
                 env.pop(key, None)
+            elif isinstance(v, (list, tuple)):
+                # a repeated header line: WSGI servers join the values
+                env[key] = ','.join(v)
             else:
                 env[key] = v
         if ws is not None:
